@@ -125,5 +125,6 @@ def pipeline_faults_model(ck, L, configs, dump=True):
             bad.append(f"{n}-{conn}:{res.violated_invariant}")
         if n == 2 and dump:
             for x in res.json_lines():
-                outcomes.setdefault((n, conn, x["k"], tuple(x["t"])), set()).add(x["o"])
+                for k in (("prep", "readout") if x["k"] == "any" else (x["k"],)):     # raised before the two APIs diverge: an outcome of both
+                    outcomes.setdefault((n, conn, k, tuple(x["t"])), set()).add(x["o"])
     return bad, outcomes
